@@ -115,3 +115,32 @@ Theorem C04_live_example_reproposal :
                /\ (forall i x k, In (i, x, k) (gdecs g3_end) -> x = v /\ k = 2).
 Proof. exact (conj ex3_run (conj (proj1 ex3_decides) (conj (proj1 (proj2 ex3_decides)) (conj (proj2 (proj2 ex3_decides)) ex3_theorem_applies)))). Qed.
 Print Assumptions C04_live_example_reproposal.
+
+(* Reachable-state facts behind the hypotheses, proved as invariants of [run] from [init]:
+   - round 1: a running undecided round-1 leader with its input HAS broadcast PRE-PREPARE(1, input)
+     (so "the leader has its input value" = "its PRE-PREPARE is in the pool");
+   - leader_ok: in a round > 1 the justification cache is empty until the QRC rule of the round runs;
+   - buf_fresh: every buffered ROUND-CHANGE passed isJustifiedRoundChange. *)
+Theorem C04_leader_input_sent : forall p ls s, 1 <= nodes p -> run p init ls = Some s ->
+  decided s = false -> dead s = false -> started s = true -> round s = 1 -> is_leader p 1 (self p) = true ->
+  input s <> 0%N -> In (mkm (mk PrePrepare (self p) 1 (input s) 0 0) []) (sent_msgs ls).
+Proof. exact leader_input_sent. Qed.
+Print Assumptions C04_leader_input_sent.
+
+Theorem C04_cache_empty_reachable : forall p ls s, run p init ls = Some s ->
+  1 < round s -> is_dup s QRC (round s) = false -> ppj s = PNone.
+Proof. exact run_cache_empty. Qed.
+Print Assumptions C04_cache_empty_reachable.
+
+Theorem C04_buffer_rc_justified_reachable : forall p ls s, run p init ls = Some s ->
+  forall m, In m (bufmsgs (buffer s)) -> ty (main m) = RoundChange -> justified_roundchange p m = true.
+Proof. exact run_buffer_rc_justified. Qed.
+Print Assumptions C04_buffer_rc_justified_reachable.
+
+(* The FIFO hypothesis cannot be dropped: with FIFOLimit = 1, from the initial configuration of the
+   round-1 example (which satisfies every other hypothesis), a fair configuration is reachable in
+   which nobody has decided (a duplicate of the PRE-PREPARE evicts the leader's PREPARE). *)
+Theorem C04_good_round_without_fifo_refuted :
+  exists g, gsteps 4 1 ld4 R4 g1_0 g /\ delivered_all R4 g /\ gdecs g = [].
+Proof. exact good_round_without_fifo_refuted. Qed.
+Print Assumptions C04_good_round_without_fifo_refuted.
